@@ -13,11 +13,15 @@
       statement is confined to the id range [start_job_id, start_job_id + n_jobs) of the update being committed, decided by
       comparing linear normal forms of the bounds with the variables' provenance (batch_updates row of (in_batch_id, in_update_id)).
       A writer whose WHERE itself restricts jobs.state to Pending needs none of this.
-  R2  once-only tallies: the completed/cancelled/failed/succeeded increments sit in the branch that writes the terminal state, that
-      branch requires the job to be Ready/Creating/Running as read FOR UPDATE in the same transaction, the stale-attempt branch comes
-      first and writes nothing, the already-terminal branch writes nothing; nobody else increments the tallies.
-  R3  Python mirror: driver mark_job_complete returns before notifying when rc != 0 or the old state is already complete;
-      complete_states equals the terminal set.
+  R2  once-only tallies (decided on path conditions, so ELSEIF chains, nested IFs, LEAVE guard clauses and boolean locals holding a test
+      are the same thing; variables are resolved through the reads that bind them): exactly one statement increments the
+      completed/cancelled/failed/succeeded tallies; its path condition admits only Ready/Creating/Running for the state read FOR UPDATE
+      from the job row, excludes a report whose attempt id differs from the job's current attempt, and implies the write of the job's
+      state; nothing is written on paths taken only by stale reports or for a job that was not live; nobody else increments the tallies.
+  R3  Python mirror: every path of driver mark_job_complete (helpers that reach a notification inlined) to a completion notification
+      passes a test edge that establishes rc == 0 and one that establishes "old state not complete", whatever the spelling (renamed
+      result local, ==/!=/truthiness, in/not in, and/or/not, guard clause or nesting, boolean local, one-line predicate helper);
+      tests on the procedure result that are not recognised make the rule decline; complete_states equals the terminal set.
   R4  lock continuity: in every routine that writes jobs.state or the completion tallies, a value read from the job / attempt /
       batch rows with a locking read is used for a decision or a write only while the transaction that took the lock is still
       open - no COMMIT / ROLLBACK / START TRANSACTION on any path between the locking read and the use (abstract walk of the
@@ -29,7 +33,8 @@ from __future__ import annotations
 import ast
 from typing import Dict, List, Optional, Sequence, Set, Tuple
 
-from engines import callsites as cs
+from engines import c04facts as cf4
+from engines import inline
 from engines import pyfacts as pf
 from engines import sqlfront as sf
 from engines import sqlrules as sr
@@ -93,22 +98,37 @@ def to_values(e: N, param_domain: Dict[str, Set[str]]) -> Set[str]:
     raise AnalysisError(f'jobs.state is assigned an expression whose values cannot be enumerated: {text(e)}')
 
 
-def state_vars(routine: N, key: Tuple[str, str]) -> Dict[str, str]:
-    """variables bound to jobs.state by `SELECT state.. INTO v.. FROM jobs WHERE batch_id = <key0> AND job_id = <key1> FOR UPDATE`."""
-    out: Dict[str, str] = {}
+def state_reads(routine: N) -> List[Tuple[str, str, Tuple[str, str], N]]:
+    """(variable, lock clause, key (X, Y), select) for every `SELECT .. state .. INTO .. v .. FROM jobs WHERE batch_id = X AND job_id = Y`:
+    v holds jobs.state of the row (X, Y).  Names of variables and parameters are not interpreted."""
+    out = []
     for st in sf.all_statements(routine.body):
-        if st.kind == 'select' and st.into and st.frm is not None and [t.lower() for t in sf.table_names(st.frm)] == ['jobs']:
-            if sr.has_eq(st.where, 'batch_id', key[0]) and sr.has_eq(st.where, 'job_id', key[1]):
-                for (c, _), v in zip(st.cols, st.into):
-                    if c.kind == 'col' and c.parts[-1].lower() == 'state' and sr.is_var(v):
-                        out[v.parts[0].lower()] = st.lock
+        if st.kind == 'select' and st.into and st.frm is not None and [t.lower() for t in sf.table_names(st.frm)] == ['jobs'] and len(sf.from_tables(st.frm)) == 1:
+            key = cf4.job_key(st.where)
+            if key is None:
+                continue
+            for (c, _), v in zip(st.cols, st.into):
+                if c.kind == 'col' and c.parts[-1].lower() == 'state' and sr.is_var(v):
+                    out.append((v.parts[0].lower(), st.lock, key, st))
     return out
+
+
+def state_vars(routine: N, key: Optional[Tuple[str, str]]) -> Dict[str, str]:
+    """variables bound to jobs.state of the row `key` -> lock clause of the read."""
+    return {v: lock for v, lock, k, _ in state_reads(routine) if key is not None and k == key}
+
+
+def _jobs_quals(frm: Optional[N]) -> Set[str]:
+    """the qualifiers (alias or table name) under which the jobs table is visible in a FROM clause."""
+    return {(t.alias or t.name).lower() for t in sf.from_tables(frm) if t.kind == 'table' and t.name.lower() == 'jobs'}
 
 
 def from_states(st: N, guard, svars: Dict[str, str]) -> Tuple[Set[str], bool]:
     """States s for which the path condition and the WHERE may hold; second result: was any state constraint present."""
     out = set()
     constrained = False
+    quals = _jobs_quals(st.frm)
+    n_tabs = len(sf.from_tables(st.frm))
     for s in STATES:
         def known_guard(n: N):
             if n.kind == 'col' and len(n.parts) == 1 and n.parts[0].lower() in svars:
@@ -116,7 +136,7 @@ def from_states(st: N, guard, svars: Dict[str, str]) -> Tuple[Set[str], bool]:
             return UNKNOWN
 
         def known_where(n: N):
-            if n.kind == 'col' and n.parts[-1].lower() == 'state' and (len(n.parts) == 1 or n.parts[-2].lower() == 'jobs'):
+            if n.kind == 'col' and n.parts[-1].lower() == 'state' and ((len(n.parts) == 1 and (n_tabs == 1 or bool(quals))) or (len(n.parts) > 1 and n.parts[-2].lower() in quals)):
                 return s
             return UNKNOWN
         ok = True
@@ -275,7 +295,7 @@ def var_provenance(routine: N) -> Dict[str, Tuple[str, str, N]]:
     return {k: v for k, v in out.items() if counts.get(k) == 1}
 
 
-def update_range_confinement(routine: N, st: N, guard) -> Tuple[str, str]:
+def update_range_confinement(routine: N, st: N, guard, rl: Optional[cf4.RoutineLocals] = None) -> Tuple[str, str]:
     """Is the multi-row UPDATE of jobs confined to the jobs of the update (in_batch_id, in_update_id)?
     Returns ('ok' | 'bad' | 'unknown', explanation).  Decided from the conjuncts of the WHERE: `jobs.update_id = in_update_id`, or an id
     interval whose bounds, as linear forms over routine variables, lie within [start_job_id, start_job_id + n_jobs) of that update's
@@ -301,16 +321,28 @@ def update_range_confinement(routine: N, st: N, guard) -> Tuple[str, str]:
         return 'bad', 'the statement is not restricted to the batch (no `jobs.batch_id = in_batch_id`)'
     prov = var_provenance(routine)
 
+    def lin(e: N) -> Optional[Lin]:
+        # a bound held in a local (`SET end_id = start_id + n`) is compared through its definition; variables the path condition equates share a name
+        out = lin_of(rl.expand(e, st) if rl is not None else e)
+        if out is None:
+            return None
+        res: Lin = {}
+        for k, c_ in out.items():
+            k2 = same.get(k, k)
+            res[k2] = res.get(k2, 0) + c_
+        return {k: c_ for k, c_ in res.items() if c_ != 0 or k == ''}
+
     def this_update_row(sel: N, table: str, extra: Sequence[Tuple[str, str]] = ()) -> bool:
         return sr.has_eq(sel.where, 'batch_id', 'in_batch_id') and sr.has_eq(sel.where, 'update_id', 'in_update_id') and all(sr.has_eq(sel.where, a, b) for a, b in extra)
     start_vars = {v for v, (t, c, sel) in prov.items() if t == 'batch_updates' and c == 'start_job_id' and this_update_row(sel, t)}
     n_vars = {v for v, (t, c, sel) in prov.items() if t == 'batch_updates' and c == 'n_jobs' and this_update_row(sel, t)}
     staged = {v for v, (t, c, sel) in prov.items() if t == 'job_groups_inst_coll_staging' and c == 'sum(n_jobs)' and this_update_row(sel, t, (('job_group_id', '0'),))}
+    same: Dict[str, str] = {}
     for c, pol in guard:
         if pol and c.kind == 'bin' and c.op == '=' and sr.is_var(c.left) and sr.is_var(c.right):
             a, b = c.left.parts[0].lower(), c.right.parts[0].lower()
             if (a in staged and b in n_vars) or (b in staged and a in n_vars):
-                n_vars = n_vars | staged
+                same[a if a in staged else b] = b if a in staged else a   # equal on this path: one canonical name in the linear forms
     lows: List[Lin] = []   # job_id >= L
     ups: List[Lin] = []    # job_id <  U
     for c in sf.conjuncts(st.where):
@@ -320,7 +352,7 @@ def update_range_confinement(routine: N, st: N, guard) -> Tuple[str, str]:
         if c.kind == 'bin' and c.op == '=' and ((is_jobs_col(c.left, 'update_id') and sr.is_var(c.right, 'in_update_id')) or (is_jobs_col(c.right, 'update_id') and sr.is_var(c.left, 'in_update_id'))):
             return 'ok', 'jobs.update_id = in_update_id'
         if c.kind == 'between' and not c.negated and is_jobs_col(c.arg, 'job_id'):
-            lo, hi = lin_of(c.lo), lin_of(c.hi)
+            lo, hi = lin(c.lo), lin(c.hi)
             if lo is None or hi is None:
                 return 'unknown', f'bound of `{text(c)}` is not linear in routine variables'
             lows.append(lo)
@@ -337,7 +369,7 @@ def update_range_confinement(routine: N, st: N, guard) -> Tuple[str, str]:
                 op = {'<': '>', '<=': '>=', '>': '<', '>=': '<=', '=': '='}[op]
             else:
                 return 'unknown', f'conjunct `{text(c)}` mentions jobs.job_id / update_id in a form that is not modelled'
-            e = lin_of(other)
+            e = lin(other)
             if e is None:
                 return 'unknown', f'bound of `{text(c)}` is not linear in routine variables'
             plus1 = dict(e)
@@ -393,19 +425,22 @@ def update_range_confinement(routine: N, st: N, guard) -> Tuple[str, str]:
 def new_state_domain(ctx: Ctx) -> Tuple[Set[str], List[str]]:
     """Values reaching the `new_state` argument of CALL mark_job_complete."""
     m = pf.load('batch/batch/driver/job.py')
-    embs = [e for e in sf.embedded_in(m) if e.sql_text and 'CALL mark_job_complete' in e.sql_text]
+    embs = [e for e in sf.embedded_in(m) if e.sql_text and not e.parse_error and len(e.stmts()) == 1 and e.stmts()[0].kind == 'call' and e.stmts()[0].name.lower() == 'mark_job_complete']
     ctx.need(len(embs) == 1, 'driver/job.py: CALL mark_job_complete site not found exactly once')
     e = embs[0]
     st = e.stmts()[0]
-    ctx.need(st.kind == 'call' and len(st.args) == 10, 'CALL mark_job_complete arity changed')
-    elts = sr.args_tuple(e.fn, e.call.args[1])
-    ctx.need(elts is not None and len(elts) == 10, 'CALL mark_job_complete: argument tuple not recognised')
     prog = sf.load_program()
     params = [p[1].lower() for p in prog.routine('mark_job_complete').ast.params]
+    ctx.need('new_state' in params, 'mark_job_complete: the procedure has no parameter `new_state` (the state expression written to jobs.state is resolved through it)')
+    ctx.need(len(st.args) == len(params), 'CALL mark_job_complete arity differs from the procedure definition')
+    ctx.need(e.fn is not None and len(e.call.args) > 1, 'CALL mark_job_complete: argument tuple not found')
+    elts = sr.args_tuple(e.fn, e.call.args[1])
+    ctx.need(elts is not None and len(elts) == len(params) and all(a.kind == 'param' for a in st.args), 'CALL mark_job_complete: argument tuple not recognised')
     idx = params.index('new_state')
-    arg = elts[idx]
-    ctx.need(isinstance(arg, ast.Name) and e.fn is not None and arg.id in [a.arg for a in e.fn.args.args], 'new_state is not forwarded from a parameter of the Python wrapper')
-    return cs.param_values(PY_DIRS, m, e.fn, arg.id)
+    arg = pf.resolve_expr(e.fn, elts[idx])
+    own = [a.arg for a in e.fn.args.posonlyargs + e.fn.args.args + e.fn.args.kwonlyargs]
+    ctx.need(isinstance(arg, ast.Name) and arg.id in own and len(pf.assignments(e.fn).get(arg.id, [])) == 1, 'new_state is not forwarded from a parameter of the Python wrapper')
+    return cf4.param_values(PY_DIRS, m, e.fn, arg.id)
 
 
 NON_TERMINAL = [x for x in STATES if x not in TERMINAL]
@@ -413,7 +448,7 @@ NON_TERMINAL = [x for x in STATES if x not in TERMINAL]
 
 def _set_index(st: N, colname: str) -> Optional[int]:
     for i, (c, _) in enumerate(st.sets):
-        if c.kind == 'col' and c.parts[-1].lower() == colname and (len(c.parts) == 1 or c.parts[-2].lower() == 'jobs'):
+        if c.kind == 'col' and c.parts[-1].lower() == colname and (len(c.parts) == 1 or c.parts[-2].lower() in _jobs_quals(st.frm)):
             return i
     return None
 
@@ -423,7 +458,7 @@ def children_release_threshold(ctx: Ctx, r, st: N, v: N, cons: str) -> None:
     reporting parent was its LAST unfinished one (old n_pending_parents <= 1).  Otherwise the statement visits the child again when the
     next parent reports, whatever state the child reached meanwhile (Ready/Running/terminal), and rewrites it."""
     def is_counter(n: N) -> bool:
-        return n.kind == 'col' and n.parts[-1].lower() == 'n_pending_parents' and (len(n.parts) == 1 or n.parts[-2].lower() == 'jobs')
+        return n.kind == 'col' and n.parts[-1].lower() == 'n_pending_parents' and (len(n.parts) == 1 or n.parts[-2].lower() in _jobs_quals(st.frm))
     i_state, i_cnt = _set_index(st, 'state'), _set_index(st, 'n_pending_parents')
     ctx.need(i_state is not None, 'children update: state assignment not found')
     ctx.need(i_cnt is None or i_state < i_cnt, 'children update: n_pending_parents is assigned before state (the threshold would see the new value; not modelled)')
@@ -486,12 +521,16 @@ def r1(ctx: Ctx, prog: sf.SqlProgram) -> None:
                 continue
             writers.append((name, r, st, guard, v))
     n_sites = 0
-    for name, r, st, guard, v in writers:
+    locals_of: Dict[str, cf4.RoutineLocals] = {}
+    for name, r, st, guard0, v in writers:
         n_sites += 1
         tos = to_values(v, param_domain)
-        key = ('in_batch_id', 'in_job_id')
+        rl = locals_of.setdefault(name, cf4.RoutineLocals(r.ast))
+        guard = rl.expand_guard(guard0)   # a boolean local holding a test is seen through
+        reads = state_reads(r.ast)
+        key = cf4.job_key(st.where, _jobs_quals(st.frm) if len(sf.from_tables(st.frm)) > 1 else None)
+        single_row = key is not None
         svars = state_vars(r.ast, key)
-        single_row = sr.has_eq(st.where, 'batch_id', key[0]) and sr.has_eq(st.where, 'job_id', key[1])
         cons = f'{r.file}::{name}::UPDATE jobs SET state = {text(v)}'
         children = any('job_parents' == t.lower() for t in sf.table_names(st.frm))
         where_only, where_constrained = from_states(st, (), {})
@@ -499,23 +538,40 @@ def r1(ctx: Ctx, prog: sf.SqlProgram) -> None:
             froms = {'Pending'}   # the WHERE itself admits only Pending rows: no data invariant needed
             ctx.ok('R1', cons + '::from-set by WHERE', 'jobs.state = Pending required by the WHERE')
         elif name == 'mark_job_complete' and children:
-            # frozen exception 1: the children of the completing job
-            ok = sr.has_eq(st.where, 'parent_id', 'in_job_id') and any(pol and 'cur_job_state' in text(c) for c, pol in guard)
-            fs, _ = from_states(N('update', frm=st.frm, sets=[], where=None), guard, svars)
+            # frozen exception 1: the children of the completing job (the job whose state this routine read; its key is taken from that read)
+            pkeys = sorted({k for _, _, k, _ in reads})
+            ctx.need(len(pkeys) == 1, f'{name}: the state of the completing job is not read for exactly one key (batch_id, job_id): {pkeys}')
+            pvars = state_vars(r.ast, pkeys[0])
+            fs, _ = from_states(N('update', frm=st.frm, sets=[], where=None), guard, pvars)
+            ok = sr.has_eq(st.where, 'parent_id', pkeys[0][1])
             ctx.check(ok and fs == {'Ready', 'Creating', 'Running'}, 'R1', cons + '::children precondition',
-                      'children are not selected through job_parents.parent_id = in_job_id inside the branch where the parent was Ready/Creating/Running: '
+                      f'children are not selected through job_parents.parent_id = {pkeys[0][1]} inside the branch where the parent was Ready/Creating/Running (it is reached for {sorted(fs)}): '
                       'the "children of a non-terminal job are Pending" argument no longer applies', r.file, r.line_of(st))
             froms = {'Pending'}
             ctx.assume('a job with at least one non-terminal parent is Pending (n_pending_parents > 0); maintained by C05 rules')
             children_release_threshold(ctx, r, st, v, cons)
         elif name == 'commit_batch_update':
             # frozen exception 2: jobs of the update being committed
-            verdict, why = update_range_confinement(r.ast, st, guard)
+            verdict, why = update_range_confinement(r.ast, st, guard, rl)
             ctx.need(verdict != 'unknown', f'{name}: cannot decide whether the commit-time recount is confined to the update being committed: {why}')
-            gt = [(text(c), p) for c, p in guard]
-            ok = verdict == 'ok' and ('cur_update_committed', False) in gt and any(p and text(c) == '(in_update_id != 1)' for c, p in guard)
-            ctx.check(ok, 'R1', cons + '::update range precondition', 'the recount is not confined to the reserved job-id range of a not-yet-committed update > 1'
-                      + (f': {why}' if verdict == 'bad' else ''), r.file, r.line_of(st))
+            # the statement must be unreachable for an update that is already committed, and for update 1 (whose jobs are inserted with their final state)
+            prov = var_provenance(r.ast)
+            cvars = {x for x, (t, c, sel) in prov.items() if t == 'batch_updates' and c == 'committed' and sr.has_eq(sel.where, 'batch_id', 'in_batch_id') and sr.has_eq(sel.where, 'update_id', 'in_update_id')}
+            reads_committed = any(q.kind == 'select' and q.frm is not None and 'batch_updates' in [t.lower() for t in sf.table_names(q.frm)] and
+                                  any(n.kind == 'col' and n.parts[-1].lower() == 'committed' for c_, _ in q.cols for n in c_.walk()) for q in sf.all_statements(r.ast.body))
+            ctx.need(bool(cvars) or not reads_committed, f'{name}: batch_updates.committed is read, but not into a variable for the row (in_batch_id, in_update_id): cannot decide whether a committed update is recounted')
+            when_committed = all(pol in may(c, lambda n: 1 if (sr.is_var(n) and n.parts[0].lower() in cvars) else UNKNOWN) for c, pol in guard)
+            when_first = all(pol in may(c, lambda n: 1 if sr.is_var(n, 'in_update_id') else UNKNOWN) for c, pol in guard)
+            why2 = []
+            if verdict == 'bad':
+                why2.append(why)
+            if when_committed:
+                why2.append('the statement is also reached when the update is already committed' + ('' if cvars else ' (the routine never reads batch_updates.committed)')
+                            + ': repeating the commit recounts jobs that may be running or complete by now')
+            if when_first:
+                why2.append('the statement is also reached for update 1, whose jobs are created Ready/Pending with their final counters')
+            ctx.check(verdict == 'ok' and not when_committed and not when_first, 'R1', cons + '::update range precondition',
+                      'the recount is not confined to the reserved job-id range of a not-yet-committed update > 1: ' + '; '.join(why2), r.file, r.line_of(st))
             froms = {'Pending'}
             ctx.assume('jobs of an update > 1 that is not committed are Pending (inserted Pending, C05-R1; see C41 finding for the exception)')
             commit_release_threshold(ctx, r, st, v, cons)
@@ -529,6 +585,11 @@ def r1(ctx: Ctx, prog: sf.SqlProgram) -> None:
             else:
                 froms, constrained = from_states(st, guard, {})
             if not constrained:
+                # positive evidence only: every variable the path condition tests must be understood (a parameter, or a value read from a table other than the
+                # state of a job row under another key, or a SET-local that was substituted); otherwise the guard may well restrict the state in a way not modelled
+                other_state_vars = {x for x, _, k, _ in reads if x not in svars}
+                odd = sorted({x for c, _ in guard for x in (rl.opaque_locals(c) | ({n.parts[0].lower() for n in c.walk() if sr.is_var(n)} & other_state_vars))})
+                ctx.need(not odd, f'{name}: cannot decide which states the rows written by `{text(st)[:70]}` may be in: the path condition tests {odd}, whose relation to jobs.state is not modelled')
                 ctx.bad('R1', cons, f'nothing on the path or in the WHERE restricts the old state of the rows written; e.g. a Success job would become {sorted(tos)[0]}', r.file, r.line_of(st))
                 continue
         badp = sorted((f, t) for f in froms for t in tos if t != '<unchanged>' and t != f and t not in ALLOWED[f])
@@ -574,75 +635,158 @@ def r1(ctx: Ctx, prog: sf.SqlProgram) -> None:
                         fn = outer
                     ctx.need(elts is not None and len(elts) == len(st.cols), f'{rel}:{e.lineno}: cannot bind INSERT INTO jobs arguments')
                     sexpr = elts[[c.lower() for c in st.cols].index('state')]
-                    vals = cs.literal_strings(fn, sexpr)
+                    vals = cf4.string_values(m, fn, sexpr)
                     ctx.need(vals is not None, f'{rel}:{e.lineno}: initial job state is not a resolvable literal')
                     ctx.check(vals <= {'Pending', 'Ready'}, 'R1', f'{rel}::{e.qual}::INSERT INTO jobs', f'jobs can be created in state {sorted(vals - {"Pending", "Ready"})}',
                               m.path, e.lineno, detail=sorted(vals))
-                elif state_sets(st) is not None or (e.parse_error and 'jobs' in (e.sql_text or '') and 'UPDATE' in (e.sql_text or '').upper()):
+                elif state_sets(st) is not None:
                     n_sites += 1
                     ctx.bad('R1', f'{rel}::{e.qual}::{text(st)[:80]}', 'jobs.state is written outside the stored procedures that guard the lifecycle', m.path, e.lineno)
     ctx.unit('jobs_state_writers', n_sites)
 
 
+LIVE = {'Ready', 'Creating', 'Running'}
+
+
+def _gids(g) -> Set[Tuple[int, bool]]:
+    return {(id(c), p) for c, p in g}
+
+
 def r2(ctx: Ctx, prog: sf.SqlProgram) -> None:
+    """Decided on path conditions (sf.guarded_statements: IF / ELSEIF chains, nested IFs and LEAVE guard clauses give the same conditions), with the
+    variables resolved through the reads that bind them - no variable name is interpreted."""
     r = prog.routine('mark_job_complete')
     a = r.ast
-    # the top-level IF chain that decides what a report does
-    chains = [st for st in a.body if st.kind == 'if' and any('cur_job_state' in text(c) for c, _ in st.branches)]
-    ctx.need(len(chains) == 1, 'mark_job_complete: decision chain not recognised')
-    ch = chains[0]
+    rl = cf4.RoutineLocals(a)
     cons = f'{r.file}::mark_job_complete'
-    svars = state_vars(a, ('in_batch_id', 'in_job_id'))
-    ctx.check('cur_job_state' in svars and svars['cur_job_state'] == 'FOR UPDATE', 'R2', cons + '::state read FOR UPDATE',
-              'cur_job_state is not read from the job row FOR UPDATE: two completion reports could both see a live state and both count the job', r.file, r.line)
-    writes_per_branch = []
-    for i, (c, body) in enumerate(ch.branches):
-        ws = [(t.lower(), st) for st in sf.all_statements(body) for t, _ in sf.written_tables(st)]
-        calls = [st.name for st in sf.all_statements(body) if st.kind == 'call']
-        writes_per_branch.append((c, ws, calls))
-    # branch 0: stale attempt
-    c0, w0, calls0 = writes_per_branch[0]
-    stale = 'expected_attempt_id' in text(c0) and 'in_attempt_id' in text(c0)
-    ctx.check(stale and not w0 and not calls0, 'R2', cons + '::stale attempt first',
-              f'the first branch is `{text(c0)}` and writes {[t for t, _ in w0]}: a report for a superseded attempt must be recognised before anything is counted', r.file, r.line_of(ch))
-    # exactly one branch writes the tallies, and it is the live-state branch that also writes the job state
-    tally_branches = [i for i, (_, ws, _) in enumerate(writes_per_branch) if any(t == TALLY_TBL for t, _ in ws)]
-    ctx.check(len(tally_branches) == 1, 'R2', cons + '::single tally branch', f'tallies are incremented in {len(tally_branches)} branches', r.file, r.line_of(ch))
-    if len(tally_branches) == 1:
-        i = tally_branches[0]
-        c, ws, _ = writes_per_branch[i]
-        live = set()
-        for s in STATES:
-            prior = [(cc, False) for cc, _, _ in writes_per_branch[:i] if 'cur_job_state' in text(cc)]
-            if True in may(c, lambda n: s if (n.kind == 'col' and n.parts[-1].lower() == 'cur_job_state') else UNKNOWN) and \
-                    all(False in may(cc, lambda n: s if (n.kind == 'col' and n.parts[-1].lower() == 'cur_job_state') else UNKNOWN) for cc, _ in prior):
-                live.add(s)
-        ctx.check(live == {'Ready', 'Creating', 'Running'}, 'R2', cons + '::tally guard', f'tallies are incremented when the job was in {sorted(live)}; a job already in a terminal state '
-                  '(or still Pending) must not be counted' if live != {'Ready', 'Creating', 'Running'} else '', r.file, r.line_of(ch))
-        sets_state = any(t == 'jobs' and state_sets(st) is not None and text(state_sets(st)).lower() == 'new_state' for t, st in ws)
-        ctx.check(sets_state, 'R2', cons + '::tally with state write', 'the branch that counts the job does not also write its terminal state (a repeat report would count again)', r.file, r.line_of(ch))
-        # each tally +constant-or-predicate exactly once, keyed over self and ancestors
-        for t, st in ws:
-            if t == TALLY_TBL:
-                cols = {c_.parts[-1].lower(): v for c_, v in st.sets}
-                ctx.check(sorted(cols) == sorted(TALLIES), 'R2', cons + '::tally columns', f'tally update touches {sorted(cols)}', r.file, r.line_of(st))
-                inc = cols.get('n_completed')
-                ctx.check(inc is not None and text(inc).lower() == '(n_completed + 1)', 'R2', cons + '::n_completed', f'n_completed is set to `{text(inc)}`, expected n_completed + 1',
-                          r.file, r.line_of(st))
-    # other branches write nothing
-    for i, (c, ws, calls) in enumerate(writes_per_branch):
-        if i not in tally_branches and i != 0:
-            ctx.check(not ws and not calls, 'R2', cons + f'::branch `{text(c)[:60]}` is read-only', f'the already-complete / unexpected-state branch writes {[t for t, _ in ws]}',
-                      r.file, r.line_of(ch))
-    if ch.orelse is not None:
-        ws = [t for st in sf.all_statements(ch.orelse) for t, _ in sf.written_tables(st)]
-        ctx.check(not ws, 'R2', cons + '::else branch is read-only', f'the fallback branch writes {ws}', r.file, r.line_of(ch))
+    stmts = [(st, g0, rl.expand_guard(g0)) for st, g0 in sf.guarded_statements(a.body)]
+    tally = [(st, g0, g) for st, g0, g in stmts if any(t.lower() == TALLY_TBL for t, _ in sf.written_tables(st))]
+    # the job this routine completes: the key of its state read(s)
+    reads = state_reads(a)
+    keys = sorted({k for _, _, k, _ in reads})
+    ctx.need(len(keys) == 1, f'mark_job_complete: the job state is not read into a variable for exactly one key (batch_id, job_id): {keys}')
+    key = keys[0]
+    svars = state_vars(a, key)
+
+    def mentions(g, names: Set[str]) -> Set[str]:
+        return {n.parts[0].lower() for c, _ in g for n in c.walk() if sr.is_var(n)} & names
+
+    def not_understood(g) -> List[str]:
+        return sorted({x for c, _ in g for x in rl.opaque_locals(c)})
+
+    callers = {name for name, rr in prog.routines.items() for q in sf.all_statements(rr.ast.body) if q.kind == 'call' and
+               any(t.lower() == TALLY_TBL for x in sf.all_statements(prog.routines[q.name].ast.body if q.name in prog.routines else []) for t, _ in sf.written_tables(x))}
+    ctx.need(bool(tally), 'mark_job_complete: no statement of the routine writes the completion tallies' + (f' (they are written by a procedure called from {sorted(callers)}; not seen through)' if callers else ''))
+
+    # variables holding the attempt the job row currently belongs to, and the parameter(s) they are compared with
+    avars: Set[str] = set()
+    attempt_read_odd = False
+    for q in sf.all_statements(a.body):
+        if q.kind == 'select' and q.frm is not None and [t.lower() for t in sf.table_names(q.frm)] == ['jobs']:
+            for i, (c, _) in enumerate(q.cols):
+                if any(n.kind == 'col' and n.parts[-1].lower() == 'attempt_id' for n in c.walk()):
+                    if q.into and c.kind == 'col' and i < len(q.into) and sr.is_var(q.into[i]) and cf4.job_key(q.where) == key:
+                        avars.add(q.into[i].parts[0].lower())
+                    else:
+                        attempt_read_odd = True
+    params = {p_[1].lower() for p_ in a.params}
+    aparams: Set[str] = set()
+    for _, _, g in stmts:
+        for c, _ in g:
+            for n in c.walk():
+                if n.kind == 'bin' and n.op in ('=', '!=', '<>', '<=>') and sr.is_var(n.left) and sr.is_var(n.right):
+                    l_, r_ = n.left.parts[0].lower(), n.right.parts[0].lower()
+                    if l_ in avars and r_ in params:
+                        aparams.add(r_)
+                    if r_ in avars and l_ in params:
+                        aparams.add(l_)
+
+    def feasible(g, stale: bool) -> bool:
+        """may the path condition hold for a report whose attempt id differs from / equals the job's current attempt (both not NULL)?"""
+        def known(n: N):
+            if sr.is_var(n):
+                nm = n.parts[0].lower()
+                if nm in avars:
+                    return 'attempt-current'
+                if nm in aparams:
+                    return 'attempt-reported' if stale else 'attempt-current'
+            return UNKNOWN
+        return all(pol in may(c, known) for c, pol in g)
+
+    # -- the live-state test is made on a value read FOR UPDATE
+    tested = set()
+    for st, g0, g in tally:
+        tested |= mentions(g, set(svars))
+    unlocked = sorted(v for v in tested if svars[v] != 'FOR UPDATE')
+    if tested:
+        ctx.check(not unlocked, 'R2', cons + '::state read FOR UPDATE',
+                  f'the job state tested before the tallies are incremented ({unlocked}) is not read from the job row FOR UPDATE: two completion reports could both see a live state and both count the job', r.file, r.line)
+    # -- exactly one statement increments the tallies
+    ctx.check(len(tally) == 1, 'R2', cons + '::single tally branch', f'tallies are incremented by {len(tally)} statements (path conditions: {[[("" if p else "NOT ") + text(c)[:50] for c, p in g] for _, _, g in tally]})',
+              r.file, r.line_of(tally[0][0]))
+    for st, g0, g in tally:
+        live, _c = from_states(N('update', frm=st.frm, sets=[], where=None), g, svars)
+        if live != LIVE:
+            odd = not_understood(g)
+            ctx.need(not odd, f'mark_job_complete: cannot decide for which job states the tallies are incremented: the path condition tests {odd}, which are not resolved')
+        ctx.check(live == LIVE, 'R2', cons + '::tally guard', f'tallies are incremented when the job was in {sorted(live)}; a job already in a terminal state (or still Pending) must not be counted', r.file, r.line_of(st))
+        # -- a report for a superseded attempt is recognised before anything is counted
+        if not avars:
+            ctx.need(not attempt_read_odd, 'mark_job_complete: jobs.attempt_id is read, but not into a variable for the row of the completing job: the stale-attempt test is not recognised')
+        stale_counts = feasible(g, True)
+        if stale_counts and avars:
+            odd = not_understood(g)
+            ctx.need(not odd, f'mark_job_complete: cannot decide whether a stale attempt is counted: the path condition tests {odd}, which are not resolved')
+        ctx.check(not stale_counts, 'R2', cons + '::stale attempt first',
+                  ('the tallies are incremented on a path that is also taken when the reported attempt id differs from the attempt the job currently belongs to' if avars else
+                   'the routine never reads jobs.attempt_id, so the tallies are incremented whatever attempt reports') +
+                  f' (path condition {[("" if p else "NOT ") + text(c)[:60] for c, p in g]}): a report for a superseded attempt must be recognised before anything is counted', r.file, r.line_of(st))
+        # -- the statement that counts the job runs together with the write of its terminal state
+        writes = [(q, q0) for q, q0, _ in stmts if state_sets(q) is not None and cf4.job_key(q.where, _jobs_quals(q.frm) if len(sf.from_tables(q.frm)) > 1 else None) == key]
+        together = [q for q, q0 in writes if _gids(q0) <= _gids(g0)]
+        if not together:
+            ctx.need(not writes, 'mark_job_complete: the state of the completing job is written under a path condition that is not implied by that of the tally increment; their relation is not decided')
+        ctx.check(bool(together), 'R2', cons + '::tally with state write', 'the routine counts the job but never writes the state of the job row (batch_id, job_id): a repeat report would count again', r.file, r.line_of(st))
+        # -- every tally moves, n_completed by exactly one
+        cols = {c_.parts[-1].lower(): v for c_, v in st.sets if c_.kind == 'col'}
+        missing = sorted(set(TALLIES) - set(cols))
+        ctx.check(not missing, 'R2', cons + '::tally columns', f'the single statement that maintains the tallies does not touch {missing}', r.file, r.line_of(st))
+        inc = cols.get('n_completed')
+        if inc is not None:
+            d = sr.dup_increment('n_completed', inc, {})
+            ctx.need(d is not None, f'mark_job_complete: n_completed is set to `{text(inc)}`, not recognised as n_completed +/- <amount>')
+            sign, amount = d
+            ctx.need(amount.kind == 'lit', f'mark_job_complete: n_completed moves by `{text(amount)}`, which is not a literal')
+            ctx.check(sign == 1 and amount.value == 1, 'R2', cons + '::n_completed', f'n_completed is set to `{text(inc)}`, expected n_completed + 1', r.file, r.line_of(st))
+    # -- nothing is written (and no procedure called) on a path taken only by stale reports, or for a job that was not live
+    for st, g0, g in stmts:
+        if not (sf.written_tables(st) or st.kind == 'call'):
+            continue
+        what = f'{st.kind.upper()} {st.name}' if st.kind == 'call' else f'{st.kind.upper()} {sorted({t.lower() for t, _ in sf.written_tables(st)})}'
+        if avars and feasible(g, True) and not feasible(g, False):
+            ctx.bad('R2', cons + f'::stale report writes nothing::{what}', f'`{text(st)[:80]}` runs only for a report whose attempt id differs from the job\'s current attempt: such a report must change nothing',
+                    r.file, r.line_of(st))
+        if mentions(g, set(svars)):
+            fs, _c = from_states(N('update', frm=getattr(st, 'frm', None), sets=[], where=None), g, svars)
+            bad_states = sorted(fs - LIVE)
+            if bad_states and not_understood(g):
+                raise AnalysisError(f'mark_job_complete: cannot decide for which job states `{text(st)[:60]}` runs: the path condition tests {not_understood(g)}')
+            ctx.check(not bad_states, 'R2', cons + f'::only a live job is changed::{what}',
+                      f'`{text(st)[:80]}` also runs when the job was {bad_states}: the already-complete / unexpected-state paths must be read-only', r.file, r.line_of(st))
     # closed world: nobody else increments the tallies
+    called_by: Dict[str, Set[str]] = {}
+    for name, rr in prog.routines.items():
+        for q in sf.all_statements(rr.ast.body):
+            if q.kind == 'call':
+                called_by.setdefault(q.name.lower(), set()).add(name)
     for name, rr in sorted(prog.routines.items()):
         for st in sf.all_statements(rr.ast.body):
             for t, verb in sf.written_tables(st):
-                if t.lower() == TALLY_TBL:
-                    ctx.check(name == 'mark_job_complete', 'R2', f'{rr.file}::{name}::writes {TALLY_TBL}', f'{name} also writes the completion tallies', rr.file, rr.line_of(st))
+                if t.lower() == TALLY_TBL and name != 'mark_job_complete':
+                    only_helper = rr.kind == 'procedure' and called_by.get(name.lower(), set()) == {'mark_job_complete'}
+                    ctx.need(not only_helper, f'{name} writes the completion tallies and is called only from mark_job_complete (an extracted helper procedure): not seen through')
+                    ctx.bad('R2', f'{rr.file}::{name}::writes {TALLY_TBL}', f'{name} also writes the completion tallies', rr.file, rr.line_of(st))
+    ctx.ok('R2', 'sql::closed world of tally writers', sorted(n_ for n_, rr in prog.routines.items() if any(t.lower() == TALLY_TBL for q in sf.all_statements(rr.ast.body) for t, _ in sf.written_tables(q))))
     for rel in pf.walk_py(PY_DIRS):
         m = pf.load(rel)
         if TALLY_TBL not in m.src:
@@ -658,50 +802,61 @@ def r2(ctx: Ctx, prog: sf.SqlProgram) -> None:
                         ctx.check(zero_insert, 'R2', f'{rel}::{e.qual}::writes {TALLY_TBL}', f'{verb} of the completion tallies outside mark_job_complete: {text(st)[:100]}', m.path, e.lineno)
 
 
+JOB_PY = 'batch/batch/driver/job.py'
+NOTIFY = ('notify_batch_job_complete', 'notify_job_group_on_job_complete')
+
+
 def r3(ctx: Ctx) -> None:
     g = pf.load('batch/batch/globals.py')
     v = g.global_assign('complete_states')
     ctx.need(isinstance(v, (ast.Tuple, ast.List, ast.Set)), 'globals.complete_states is not a literal collection')
     vals = {pf.const_str(x) for x in v.elts}
+    ctx.need(None not in vals, 'globals.complete_states has a member that is not a string literal')
     ctx.check(vals == TERMINAL, 'R3', 'batch/batch/globals.py::complete_states', f'complete_states is {sorted(vals)}; the terminal states are {sorted(TERMINAL)}', g.path, v.lineno)
-    m = pf.load('batch/batch/driver/job.py')
+    m0 = pf.load(JOB_PY)
+    toplevel = {f.name: f for f in m0.tree.body if isinstance(f, (ast.FunctionDef, ast.AsyncFunctionDef))}
+    ctx.need('mark_job_complete' in toplevel, f'{JOB_PY}::mark_job_complete not found')
+    # module-level helpers through which a notification is reached are analysed inlined (an extracted `_notify_completion(..)` is seen through)
+    reaches: Set[str] = set()
+    changed = True
+    while changed:
+        changed = False
+        for nm, f in toplevel.items():
+            if nm in reaches or nm in NOTIFY:
+                continue
+            if any(isinstance(c, ast.Call) and isinstance(c.func, ast.Name) and (c.func.id in NOTIFY or c.func.id in reaches) for c in ast.walk(f)):
+                reaches.add(nm)
+                changed = True
+    helpers = reaches - {'mark_job_complete'}
+    if helpers & {c.func.id for c in ast.walk(toplevel['mark_job_complete']) if isinstance(c, ast.Call) and isinstance(c.func, ast.Name)}:
+        m, il = inline.inline_functions(m0, 'mark_job_complete', exclude=tuple(n_ for n_ in toplevel if n_ not in helpers))
+        hidden = [c for c in ast.walk(m.func('mark_job_complete')) if isinstance(c, ast.Call) and isinstance(c.func, ast.Name) and c.func.id in helpers]
+        ctx.need(not hidden, f'{JOB_PY}::mark_job_complete: helper `{hidden[0].func.id if hidden else ""}` reaches a completion notification but is called in a form that cannot be inlined')
+    else:
+        m = m0
     fn = m.func('mark_job_complete')
+    _call, rv = cf4.result_local(m, fn, 'mark_job_complete')
+    # local names under which globals.complete_states (checked against the terminal set above) is imported
+    names = {k: set(vals) for k, origin in m.imports().items() if origin.endswith('globals.complete_states')}
+    bf = cf4.BranchFacts(m, fn, rv, TERMINAL, names)
     g_ = pf.cfg(fn)
-    notif = g_.find(lambda n: any(pf.dotted(c.func) in ('notify_batch_job_complete', 'notify_job_group_on_job_complete') for c in pf.node_calls(n)))
+    notif = g_.find(lambda n: any(pf.dotted(c.func) in NOTIFY for c in pf.node_calls(n)))
     ctx.need(len(notif) >= 2, 'driver mark_job_complete: completion notifications not found')
-
-    def is_test(txt: str):
-        return lambda n: n.kind == 'test' and pf.nsrc(n.ast) == txt
     for n in notif:
-        cons = f'{m.rel}::mark_job_complete::{pf.nsrc(n.ast)[:60]}'
-        # every path to the notification takes the False edge of `rv['rc'] != 0` and of `old_state in complete_states`
-        for txt, why in (("rv['rc'] != 0", 'the procedure refused the report'), ('old_state in complete_states', 'the job was already complete')):
-            tests = g_.find(is_test(txt))
-            ok = bool(tests) and g_.path_avoiding(g_.entry, lambda x: x is n, lambda x: False,
-                                                  edge_ok=lambda a, b, lab: not (a in tests and lab == 'F')) is None
-            ok = ok and all(any(isinstance(s.ast, ast.Return) for s, lab in t.succ if lab == 'T') or _branch_returns(t) for t in tests)
-            ctx.check(ok, 'R3', cons + f'::after `{txt}`', f'completion is notified even when {why}', m.path, n.lineno)
-
-
-def _branch_returns(t: pf.Node) -> bool:
-    # the True branch of the test ends in a return without reaching the fall-through
-    seen = set()
-    stack = [s for s, lab in t.succ if lab == 'T']
-    while stack:
-        n = stack.pop()
-        if n.id in seen:
-            continue
-        seen.add(n.id)
-        if n.kind == 'return':
-            continue
-        if n.kind in ('exit',):
-            return False
-        for s, lab in n.succ:
-            if lab != 'exc':
-                stack.append(s)
-        if not n.succ:
-            return False
-    return True
+        which = next(pf.dotted(c.func) for c in pf.node_calls(n) if pf.dotted(c.func) in NOTIFY)
+        cons = f'{m.rel}::mark_job_complete::{which}'
+        # every path to the notification establishes  rc == 0  and  old_state not complete
+        for fact, key, why in (('accepted', "after `rc != 0`", 'the procedure refused the report'), ('live', 'after `old_state in complete_states`', 'the job was already complete')):
+            p = cf4.unestablished_path(g_, bf, n, fact, strict=True)
+            if p is None:
+                p2 = cf4.unestablished_path(g_, bf, n, fact, strict=False)
+                if p2 is not None:
+                    odd = [x for x in p2 if x.kind == 'test']
+                    raise AnalysisError(f'{cons}: cannot decide whether the notification is reached only when {"rc == 0" if fact == "accepted" else "the old state was not complete"}: '
+                                        f'the path through {", ".join(f"line {x.lineno} `{pf.nsrc(x.ast)[:50]}`" for x in odd[-3:])} tests the procedure result `{rv}` in a form that is not recognised')
+            tests = [x for x in (p or []) if x.kind == 'test']
+            ctx.check(p is None, 'R3', cons + f'::{key}', f'completion is notified even when {why}: path ' +
+                      (' -> '.join(f'line {x.lineno} `{pf.nsrc(x.ast)[:40]}`' for x in tests[-4:]) or 'without any test') + ' reaches the notification', m.path, n.lineno)
 
 
 LOCK_SUBJECTS = {'jobs', 'attempts', 'batches', 'batch_updates', 'job_groups'}
@@ -747,7 +902,7 @@ def r4(ctx: Ctx, prog: sf.SqlProgram) -> None:
 def run(ctx: Ctx) -> None:
     ctx.explanation = 'Every writer of jobs.state in the effective SQL program and in Python-embedded SQL is enumerated; the from/to sets induced by guards are checked against the lifecycle relation.'
     ctx.rule('R1', 'writers of jobs.state: from-set (guards on the state read FOR UPDATE / WHERE) x to-set within the lifecycle relation; initial states within {Pending, Ready}', 16)
-    ctx.rule('R2', 'completion tallies incremented once: single branch, live-state guard on a FOR UPDATE read, with the state write; stale-attempt branch first; closed world', 10)
+    ctx.rule('R2', 'completion tallies incremented once: single statement, live-state path condition on a FOR UPDATE read, with the state write; stale attempts excluded first; non-live paths read-only; closed world', 12)
     ctx.rule('R3', 'driver mirror: no completion notification when rc != 0 or old state already complete; complete_states == terminal set', 5)
     ctx.rule('R4', 'lock continuity: values read under a row lock are only used for decisions / writes while that transaction is open', 12)
     prog = sf.load_program()
